@@ -322,6 +322,84 @@ def r7_methods_exist(idx, r):
                   "or on a builtin type: the call raises AttributeError whenever this path runs")
 
 
+def r8_component_index_space(idx, r):
+    """By-component averaging pairs component k of the representative block with component k of every member. 'k'
+    is produced by one enumerate() and consumed by indexing in the helpers; producer and consumers must order the
+    components the same way (all `sorted(x.getComponents())`, or none)."""
+    c = idx.cls(M + ".AverageBlockCollection")
+    if c is None:
+        raise AnchorMissing("AverageBlockCollection")
+
+    def shape(e):
+        """order-defining wrapper of a component listing: 'sorted' | 'plain' | None"""
+        if isinstance(e, ast.Call) and dotted(e.func) == "sorted" and e.args and isinstance(e.args[0], ast.Call) and call_attr(e.args[0]) == "getComponents":
+            return "sorted"
+        if isinstance(e, ast.Call) and call_attr(e) == "getComponents":
+            return "plain"
+        return None
+    producers, consumers = [], []
+    for f in c.methods.values():
+        for n in ast.walk(f.node):
+            if isinstance(n, ast.Call) and dotted(n.func) == "enumerate" and n.args and shape(n.args[0]):
+                producers.append((f, n, shape(n.args[0])))
+            if isinstance(n, ast.Subscript) and shape(n.value) and isinstance(n.slice, ast.Name) and n.slice.id in f.params():
+                consumers.append((f, n, shape(n.value)))
+    if not producers or len(consumers) < 2:
+        raise AnalysisError(f"AverageBlockCollection: {len(producers)} producers / {len(consumers)} consumers of a component index found")
+    kinds = {k for _, _, k in producers} | {k for _, _, k in consumers}
+    for f, n, k in producers + consumers:
+        r.require(len(kinds) == 1, f"{f.name}:{norm(n)[:50]}", f, node=n,
+                  msg=f"`{norm(n)[:60]}` lists components in {k} order while other sites use {sorted(kinds - {k})} order: component k of the representative block "
+                      "receives the averages of another component whenever stored and sorted order differ")
+
+
+def r9_weight_homogeneous(idx, r):
+    """'unchanged by rescaling all weights': the weight of a block must scale with its weighting parameter
+    (w(t p) = t w(p) for p, t > 0). Proved symbolically for the forms `p`, `p or c`; refuted by exact evaluation at
+    p = 1/2, t = 2 for anything else that can be evaluated (max/min clamps)."""
+    from fractions import Fraction
+
+    f = idx.method(M + ".BlockCollection", "getWeight")
+    if f is None:
+        raise AnchorMissing("BlockCollection.getWeight")
+    ws = [st for st in walk_local(f.node) if isinstance(st, ast.Assign) and isinstance(st.targets[0], ast.Name) and any(isinstance(x, ast.Subscript) and "weightingParam" in norm(x) for x in ast.walk(st.value))]
+    if len(ws) != 1:
+        raise AnalysisError("getWeight: the assignment reading the weighting parameter was not found")
+    e = ws[0].value
+    P = next(norm(x) for x in ast.walk(e) if isinstance(x, ast.Subscript) and "weightingParam" in norm(x))
+
+    def val(x, p):
+        if isinstance(x, ast.Subscript) and norm(x) == P:
+            return p
+        if isinstance(x, ast.Constant) and isinstance(x.value, (int, float)):
+            return Fraction(x.value)
+        if isinstance(x, ast.BoolOp) and isinstance(x.op, ast.Or):
+            for v in x.values:
+                t = val(v, p)
+                if t:
+                    return t
+            return t
+        if isinstance(x, ast.Call) and dotted(x.func) in ("max", "min", "abs", "float") and not x.keywords:
+            a = [val(y, p) for y in x.args]
+            return {"max": max, "min": min}[dotted(x.func)](a) if dotted(x.func) in ("max", "min") else (abs(a[0]) if dotted(x.func) == "abs" else a[0])
+        if isinstance(x, ast.BinOp) and isinstance(x.op, (ast.Add, ast.Sub, ast.Mult, ast.Div)):
+            a, b = val(x.left, p), val(x.right, p)
+            return {ast.Add: a + b, ast.Sub: a - b, ast.Mult: a * b, ast.Div: a / b if b else None}[type(x.op)]
+        raise AnalysisError(f"getWeight: `{norm(x)[:50]}` outside the evaluated fragment")
+
+    proved = (isinstance(e, ast.Subscript) and norm(e) == P) or (isinstance(e, ast.BoolOp) and isinstance(e.op, ast.Or) and norm(e.values[0]) == P and all(isinstance(v, ast.Constant) for v in e.values[1:]))
+    if proved:
+        r.ok("weight:degree-1-in-the-weighting-parameter", f, node=ws[0], msg="w = p (or a constant only when p is zero)")
+        return
+    samples = [(Fraction(1, 2), 2), (Fraction(3), Fraction(1, 6)), (Fraction(1, 1000), 7)]
+    for p, t in samples:
+        if val(e, t * p) != t * val(e, p):
+            r.violate("weight:degree-1-in-the-weighting-parameter", f, f"`{norm(ws[0])[:70]}`: for p = {p} the weight is {val(e, p)} but for {t} x p it is {val(e, t * p)}, not {t} x as much: "
+                      "rescaling all weights (e.g. a normalised flux) changes the weighted means", node=ws[0])
+            return
+    r.undecided("weight:degree-1-in-the-weighting-parameter", f, f"`{norm(e)[:60]}` neither proved nor refuted", node=ws[0])
+
+
 def run(idx, chk):
     chk.explanation = (
         "C20: every weighted mean in the block-collection classes is typed with a role generator W for the weights: the result must be of degree "
@@ -344,3 +422,7 @@ def run(idx, chk):
 
     chk.run_rule("R20.7", "every method invoked on an armi-produced object while building representatives exists", lambda r: r7_methods_exist(idx, r), floor=25,
                  necessary="'with the median option it is a copy of an actual member': a builder that raises AttributeError produces no representative")
+    chk.run_rule("R20.8", "by-component averaging: the component index is produced and consumed in the same (sorted) order", lambda r: r8_component_index_space(idx, r), floor=3,
+                 necessary="'each nuclide density ... per matching component is the weight-normalised mean of the members' values'")
+    chk.run_rule("R20.9", "a block's weight scales with its weighting parameter (degree 1; clamps refuted by exact evaluation)", lambda r: r9_weight_homogeneous(idx, r), floor=1,
+                 necessary="means are 'unchanged by ... rescaling all weights'")
